@@ -230,7 +230,7 @@ func VHarness_C03_PreVoteResp() {
 
 // C03/V5 (+C04/O3): a restarted replica comes back with the term, vote and
 // commit index recorded in its log store.
-// vcheck: reach=done workers=4
+// vcheck: props=C04 reach=done workers=4
 func VHarness_C03_Restart() {
 	db := &vDB{}
 	n := vChoose("n", 3)
